@@ -316,8 +316,115 @@ func genCnt(c *hx.Ctx) {
 	}
 }
 
+// starveSched: k rounds of `victim load; adversary: one complete call (2 steps); victim CAS (fails)`, then the victim's
+// next load, one more complete adversary call, and the drain.
+func starveSched(k, advSteps int) string {
+	var sb strings.Builder
+	for r := 0; r < k; r++ {
+		sb.WriteString("0 ")
+		for i := 0; i < advSteps; i++ {
+			sb.WriteString("1 ")
+		}
+		sb.WriteString("0 ")
+	}
+	sb.WriteString("0 ")
+	for i := 0; i < advSteps; i++ {
+		sb.WriteString("1 ")
+	}
+	sb.WriteString(".")
+	return sb.String()
+}
+
+// genStarve: a victim call loses its CAS k times in a row inside ONE call (k in 1..20, 32) because an adversary completes
+// a call that changes the word between each of the victim's loads and the following CAS; then one more adversary call
+// lands between the victim's next load and its next step. Bounded-retry variants of the loops (fallbacks after n lost
+// rounds) are only reachable through this class.
+func genStarve(c *hx.Ctx) {
+	var ks []int
+	for k := 1; k <= 20; k++ {
+		ks = append(ks, k)
+	}
+	ks = append(ks, 32)
+	flagCase := func(k int, init int64, vop byte, vbit, abit uint) {
+		vf := int64(1) << (vbit % 64)
+		af := int64(1) << (abit % 64)
+		// the adversary alternates AddFlag/RemoveFlag on its bit, starting with the call that changes the word
+		first := byte('A')
+		if init&af != 0 {
+			first = 'R'
+		}
+		var adv []string
+		op := first
+		for i := 0; i <= k; i++ {
+			adv = append(adv, fmt.Sprintf("%c%d", op, af))
+			if op == 'A' {
+				op = 'R'
+			} else {
+				op = 'A'
+			}
+		}
+		c.Emit("fl %d | %c%d H%d / %s | %s", init, vop, vf, vf, strings.Join(adv, " "), starveSched(k, 2))
+		c.Count("starve_flag")
+	}
+	for _, k := range ks {
+		for _, vop := range []byte{'A', 'R'} {
+			for _, vbit := range []uint{0, 2, 31, 62, 63} {
+				for _, d := range []uint{0, 1, 63} { // same bit, upper neighbour, lower neighbour
+					for _, init := range []int64{0, -1, int64(1) << (vbit % 64)} {
+						flagCase(k, init, vop, vbit, vbit+d)
+					}
+				}
+			}
+		}
+	}
+	// every bit position at the typical bounds of a bounded spin (8, 16, 17), adversary on the same bit
+	for _, k := range []int{8, 16, 17} {
+		for b := uint(0); b < 64; b++ {
+			flagCase(k, 0, 'A', b, b)
+			flagCase(k, -1, 'R', b, b)
+		}
+	}
+	// AddIf64: the adversary moves the counter up and down just below the limit (the victim's test keeps passing, its CAS
+	// keeps failing); the last adversary call moves it to / next to the limit
+	for _, k := range ks {
+		for _, vd := range []int{0, 1, -1, 2} {
+			for _, last := range []int{1, 2, 3, -2} {
+				for _, lim := range []int{0, 3, -3} {
+					init := lim - 3
+					if vd == 2 {
+						init = lim - 4
+					}
+					var adv []string
+					v := init
+					for i := 0; i < k; i++ {
+						if i%2 == 0 {
+							adv = append(adv, "D1")
+							v++
+						} else {
+							adv = append(adv, "D-1")
+							v--
+						}
+					}
+					adv = append(adv, fmt.Sprintf("D%d", last))
+					c.Emit("ai %d %d | D%d / %s | %s", init, lim, vd, strings.Join(adv, " "), starveSched(k, 2))
+					c.Count("starve_addif")
+				}
+			}
+		}
+	}
+	// TryLock has no loop: its second CAS can be lost once (the adversary completes a TryLock, or TryLock+Unlock, between
+	// the victim's load and its CAS)
+	for _, init := range []int{8, 16, 24} {
+		for _, adv := range []string{"T", "T U", "T U T"} {
+			c.Emit("mx %d | T U / %s | 0 0 %s0 .", init, adv, strings.Repeat("1 ", mxSteps(adv)))
+			c.Count("starve_trylock")
+		}
+	}
+}
+
 func gen(c *hx.Ctx) {
 	genCnt(c)
+	genStarve(c)
 	genMx(c)
 	genFl(c)
 	genAi(c)
